@@ -958,7 +958,7 @@ def stream_generated(ctx, n_hosts):
             ctx.tie_broken("correspondence", s, d)
         all_cases += res.coq_cases
         all_wf += res.wf_terms
-        if res.name_case and h % 4 == 0:
+        if res.name_case and h % 4 == 0 and res.name_case[1] <= 60:      # (fresh_seq is cubic in the number of draws)
             NAME_CASES.append((label, res.name_case))
         meta[label] = (rule_set, replay)
         if h < 3 and res.count:
@@ -1559,9 +1559,10 @@ def run(ctx):
             if host in violated:
                 continue                                # the property oracle already produced the failing input
             ctx.tie_broken("correspondence", "apply:replay", f"{label}: application {step}: {CODE.get(code, code)}")
+        reported = {k: v for k, v in failing.items() if k.split("/")[0] not in violated}    # (hosts with a reported failing input apart)
         ctx.obligation(f"correspondence apply: {len(cases)} sweeps of the real rewriter replayed through Rewrite/Apply.v "
-                       "(apply_pass reproduces the final graph; side_okb holds at every removing splice)", not failing,
-                       "; ".join(f"{k}:{v}" for k, v in list(failing.items())[:5]))
+                       "(apply_pass reproduces the final graph; side_okb holds at every removing splice)", not reported,
+                       "; ".join(f"{k}:{v}" for k, v in list(reported.items())[:5]))
         ctx.obligation("every keeping application (remove_nodes=False) satisfies the executable side conditions keep_okb of the keeping theorem",
                        uncovered == 0, f"{uncovered} outside")
         if uncovered:
